@@ -78,6 +78,14 @@ func sameExt(a, b wsutil.SendExtension) bool {
 	return va.Type() == vb.Type() && va.Pointer() == vb.Pointer()
 }
 
+func ceilPow2(n int) int {
+	p := 1
+	for p < n {
+		p <<= 1
+	}
+	return p
+}
+
 func head(b []byte) []byte {
 	if len(b) > 24 {
 		return b[:24]
@@ -135,6 +143,17 @@ func TestWriterReset(t *testing.T) {
 			cfg1.Ctor, cfg1.N = "size", rapid.SampledFrom(pow2Sizes).Draw(t, "pow2")
 			poolable = true
 		}
+		nearClass := false
+		if mode == "putget" && !poolable && rapid.IntRange(0, 2).Draw(t, "nearclass") > 0 {
+			// previous lives of other sizes (just below a pool class, exactly a
+			// class, odd sizes) from the constructors that do not go through the
+			// pool: PutWriter must not file them where a later GetWriter gets a
+			// smaller buffer than a new writer would have
+			cfg1.Ctor = rapid.SampledFrom([]string{"size", "bufsize", "buffer"}).Draw(t, "near.ctor")
+			cfg1.N = rapid.SampledFrom([]int{120, 124, 127, 129, 200, 250, 256, 1000, 1004, 1020, 1023, 1024, 1028, 1500, 2048, 4086, 4090, 4092, 4096, 4100, 5000}).Draw(t, "near.n")
+			cfg1.Reuse, cfg1.Default = "", 0
+			nearClass = true
+		}
 		seed := rapid.Int64Range(1, 1<<40).Draw(t, "seed")
 		rand.Seed(seed)
 		hx.Eval()
@@ -189,6 +208,10 @@ func TestWriterReset(t *testing.T) {
 			var n int
 			if poolable {
 				n = cfg1.N
+			} else if nearClass {
+				// the classes the put writer could be confused with
+				n = rapid.SampledFrom([]int{ceilPow2(v1.Size), ceilPow2(v1.Size), ceilPow2(cfg1.N), 2 * ceilPow2(v1.Size), ceilPow2(v1.Size) / 2}).Draw(t, "near.getn")
+				hx.Class("putget/previous-life-near-a-pool-class")
 			} else {
 				n = rapid.SampledFrom([]int{0, 1, 7, 16, 100, 128, 129, 200, 1000, 4096}).Draw(t, "getn")
 			}
@@ -198,6 +221,17 @@ func TestWriterReset(t *testing.T) {
 			recycled = w2 == w
 			w = w2
 			ex.Retarget(w, rec2)
+			// GetWriter(n) gives a buffer of n ceiled to the pool's power-of-two
+			// class (or of n / the default outside the classes): whatever went
+			// through the pool before, the writer must offer at least the room
+			// of a newly allocated one.
+			m := n
+			if p := ceilPow2(n); n > 0 && p >= 128 && p <= 65536 {
+				m = p
+			}
+			if fresh := wsutil.NewWriterBufferSize(tx.NewRec(), stateOf(side2), ws.OpCode(op2), m); w.Size() < fresh.Size() {
+				t.Fatalf("GetWriter(n=%d) after PutWriter returned a writer with Size()=%d (recycled=%v); a newly allocated writer of that class (%d bytes) has Size()=%d\ncase: %s", n, w.Size(), recycled, m, fresh.Size(), hx.JSON(c))
+			}
 		case "resetop":
 			// The destination recovers; ResetOp keeps it.
 			side2, ext2, noFlush2 = cfg1.Client, cfg1.Ext, cfg1.NoFlush
